@@ -6,7 +6,8 @@
   (`shortest`), the ES6 notation and the reader are followed step by step in
   `Lemmas/NumIntA.lean`, `NumIntDigits.lean`, `NumIntParse.lean`, `NumInt.lean`; the reader /
   printer induction over values is `Lemmas/RoundTripNum.lean`.
-  Still open (stream only): fractions, exponents, integers of 2^53 and beyond.
+  Still open (stream only): fractions, exponents, integers beyond 2^53 in magnitude (±2^53
+  itself: `int_stable_le`).
 -/
 import Sidetree.Props.C05
 import Sidetree.Lemmas.RoundTripNum
